@@ -59,27 +59,30 @@ Qed.
 (* ------------------------------------------------------------------ *)
 From TT Require Import Proof.RunExtra Proof.RunTable Proof.RunVerdict.
 
-Definition handlers_within_Exception (p : prog) : bool :=
-  forallb (fun co => subclass (fst co) CException) (user_handlers p).
+Definition within_Exception (u : list (cls * outcome)) : bool := forallb (fun co => subclass (fst co) CException) u.
+Definition handlers_within_Exception (p : prog) : bool := within_Exception (user_handlers p).
 
 (* with handlers inserted only for Exception-derived classes, somebody is responsible for
    exactly the exceptions that derive from Exception *)
-Lemma claimed_iff p e : handlers_within_Exception p = true -> claimed p e = isinstance e CException.
+Lemma uclaimed_iff u e : within_Exception u = true -> uclaimed u e = isinstance e CException.
 Proof.
-  intros W. unfold claimed, user_claim.
-  destruct (find _ (user_handlers p)) as [co|] eqn:F; [|reflexivity].
-  apply find_some in F. destruct F as [Hin Hi]. unfold handlers_within_Exception in W.
+  intros W. unfold uclaimed, uclaim.
+  destruct (find _ u) as [co|] eqn:F; [|reflexivity].
+  apply find_some in F. destruct F as [Hin Hi]. unfold within_Exception in W.
   rewrite forallb_forall in W. symmetry. eapply subclass_trans; [exact Hi | exact (W co Hin)].
 Qed.
+Lemma claimed_iff p e : handlers_within_Exception p = true -> claimed p e = isinstance e CException.
+Proof. intros W. exact (uclaimed_iff (user_handlers p) e W). Qed.
 
+Lemma find_unclaimed_u u X :
+  within_Exception u = true ->
+  find (fun e => negb (uclaimed u e)) X = find (fun e => negb (derives_from_Exception e)) X.
+Proof. intros W. apply find_ext'. intros e. unfold derives_from_Exception. now rewrite (uclaimed_iff _ _ W). Qed.
 Lemma find_unclaimed p :
   handlers_within_Exception p = true ->
   find (fun e => negb (uclaimed (user_handlers p) e)) (raised p)
   = find (fun e => negb (derives_from_Exception e)) (raised p).
-Proof.
-  intros W. apply find_ext'. intros e. unfold derives_from_Exception.
-  change (uclaimed (user_handlers p) e) with (claimed p e). now rewrite (claimed_iff _ _ W).
-Qed.
+Proof. intros W. now apply find_unclaimed_u. Qed.
 
 (* what is reported and what propagates, when all inserted handlers are for Exception-derived classes *)
 Lemma verdict_base p e :
@@ -98,6 +101,51 @@ Proof.
   intros W F. unfold verdict_of. destruct (skipped p); [reflexivity|].
   unfold decide_u. rewrite (find_unclaimed _ W), F. destruct (raised p); reflexivity.
 Qed.
+
+(* ---------- a run of an instance that has been run before ---------- *)
+(* a force_failure flag left set by an earlier run adds the forced failure, an AssertionError: the
+   first exception outside Exception is the one the program itself raises *)
+Lemma find_app_ {A} (f : A -> bool) a b :
+  find f (a ++ b) = match find f a with Some x => Some x | None => find f b end.
+Proof. induction a as [|x r IH]; simpl; [reflexivity|]. destruct (f x); [reflexivity | exact IH]. Qed.
+Lemma find_base_collected p f0 :
+  find (fun e => negb (derives_from_Exception e)) (collected_run p f0)
+  = find (fun e => negb (derives_from_Exception e)) (raised p).
+Proof.
+  unfold collected_run. destruct (skipped p) eqn:S; [now rewrite (raised_skipped _ S)|].
+  unfold collected, raised, forced_failure. rewrite S. cbn [negb andb]. rewrite !find_app_.
+  destruct (find _ (raised_by_user p)); [reflexivity|]. destruct (f0 || forced p), (forced p); reflexivity.
+Qed.
+
+Lemma verdict_from_base p u0 f0 e :
+  within_Exception (rev (inserted p) ++ u0) = true ->
+  find (fun e => negb (derives_from_Exception e)) (raised p) = Some e ->
+  verdict_from p u0 f0 = (OErr, Some e).
+Proof.
+  intros W F. unfold verdict_from. destruct (skipped p) eqn:S; [rewrite (raised_skipped _ S) in F; discriminate|].
+  rewrite <- (find_base_collected p f0) in F.
+  unfold decide_u. rewrite (find_unclaimed_u _ _ W), F. destruct (collected_run p f0); [discriminate | reflexivity].
+Qed.
+Lemma verdict_from_no_base p u0 f0 :
+  within_Exception (rev (inserted p) ++ u0) = true ->
+  find (fun e => negb (derives_from_Exception e)) (raised p) = None ->
+  snd (verdict_from p u0 f0) = None.
+Proof.
+  intros W F. unfold verdict_from. destruct (skipped p); [reflexivity|].
+  rewrite <- (find_base_collected p f0) in F.
+  unfold decide_u. rewrite (find_unclaimed_u _ _ W), F. destruct (collected_run p f0); reflexivity.
+Qed.
+
+(* the handlers in front of the table after the earlier runs *)
+Lemma uh_state_after l : forall s,
+  uh (state_after l s) = fold_left (fun u p => rev (inserted p) ++ u) l (uh s).
+Proof.
+  induction l as [|p r IH]; intros s; [reflexivity|]. unfold state_after in *. cbn [fold_left].
+  rewrite IH. destruct (run_from_verdict p (clear s)) as (s' & d & R & _ & _ & _ & _ & U & _).
+  rewrite R. cbn [fst]. rewrite U. reflexivity.
+Qed.
+Lemma uh_start_state i : uh (start_state i) = handlers_before i.
+Proof. unfold start_state. now rewrite uh_state_after. Qed.
 
 (* ---------- the delivered events ---------- *)
 Lemma events_of_calls f t : events_of f t = events_of f (calls t).
@@ -119,16 +167,23 @@ Proof.
   - intros H. exists (STok t). split; [exact H | left; reflexivity].
 Qed.
 
+(* the verdict of the observed run: the handlers and the force_failure flag are the ones the earlier
+   runs left *)
+Definition verdict_at (i : input) : outcome * option exc :=
+  verdict_from (i_prog i) (handlers_before i) (force (start_state i)).
+
 Lemma model_obs i :
   exists ran,
     model i = {| o_events := if has_stop (i_flavour i)
-                             then [Start; Out (deliver (i_flavour i) (fst (verdict_of (i_prog i)))); Stop]
-                             else [Start; Out (deliver (i_flavour i) (fst (verdict_of (i_prog i))))];
-                 o_raised := match snd (verdict_of (i_prog i)) with Some e => kind_of e | None => RNone end;
+                             then [Start; Out (deliver (i_flavour i) (fst (verdict_at i))); Stop]
+                             else [Start; Out (deliver (i_flavour i) (fst (verdict_at i)))];
+                 o_raised := match snd (verdict_at i) with Some e => kind_of e | None => RNone end;
                  o_ran := ran |}
     /\ forall t, In t ran <-> In t (expected_tokens (i_prog i)).
 Proof.
-  unfold model. destruct (run_verdict (i_prog i) []) as (s & d & R & C & L & _). rewrite R.
+  unfold model, verdict_at. rewrite <- uh_start_state.
+  destruct (run_from_verdict (i_prog i) (clear (start_state i))) as (s & d & R & C & L & _).
+  cbn [clear uh force tr log set_tr set_log calls filter map app] in *. rewrite R.
   exists (tokens_of (log s)). split.
   - rewrite events_of_calls, C. unfold events_of. cbn [flat_map app]. destruct (has_stop (i_flavour i)); reflexivity.
   - intros t. rewrite tokens_shape, L, expected_tokens_in. reflexivity.
@@ -136,20 +191,55 @@ Qed.
 
 Theorem model_meets_spec i : wf i = true -> spec_okb i (model i) = true.
 Proof.
-  intros W. unfold wf in W. apply andb_true_iff in W as [_ Wh]. fold (handlers_within_Exception (i_prog i)) in Wh.
+  intros W. unfold wf in W. apply andb_true_iff in W as [_ Wh]. fold (within_Exception (handlers_at_outcome i)) in Wh.
+  unfold handlers_at_outcome in Wh.
   destruct (model_obs i) as (ran & -> & Hran). unfold spec_okb. cbn [o_events o_raised o_ran].
   assert (B : bracket (i_flavour i)
                 (if has_stop (i_flavour i)
-                 then [Start; Out (deliver (i_flavour i) (fst (verdict_of (i_prog i)))); Stop]
-                 else [Start; Out (deliver (i_flavour i) (fst (verdict_of (i_prog i))))])
-              = Some (deliver (i_flavour i) (fst (verdict_of (i_prog i))))).
+                 then [Start; Out (deliver (i_flavour i) (fst (verdict_at i))); Stop]
+                 else [Start; Out (deliver (i_flavour i) (fst (verdict_at i)))])
+              = Some (deliver (i_flavour i) (fst (verdict_at i)))).
   { unfold bracket. destruct (has_stop (i_flavour i)); reflexivity. }
-  rewrite B.
+  rewrite B. unfold verdict_at.
   destruct (find (fun e => negb (derives_from_Exception e)) (raised (i_prog i))) as [e|] eqn:F.
-  - rewrite (verdict_base _ _ Wh F). cbn [fst snd].
+  - rewrite (verdict_from_base _ _ _ _ Wh F). cbn [fst snd].
     rewrite (proj2 (outcome_eqb_spec _ _) eq_refl), (proj2 (rk_eqb_spec _ _) eq_refl). cbn [andb].
     apply forallb_forall. intros t Ht. apply memb_in, Hran, Ht.
-  - rewrite (verdict_no_base _ Wh F). reflexivity.
+  - rewrite (verdict_from_no_base _ _ _ Wh F). reflexivity.
+Qed.
+
+(* C01_bracket for a run of an instance in ANY state (whatever it ran before, whatever that left
+   behind): the calls on the result are startTest, exactly one outcome, stopTest; every body that
+   should run did; no cleanup is left; and the exceptions this run reports from are the ones THIS
+   run caught - nothing caught by an earlier run is still there *)
+Theorem run_from_bracket p s :
+  exists s' o d prop, run_from p s = (s', prop, false)
+                /\ calls (tr s') = calls (tr s) ++ [TStart; TOut o d; TStop]
+                /\ map shape (log s') = map shape (log s) ++ expected_log p /\ stack s' = []
+                /\ excs s' = collected_run p (force s).
+Proof.
+  destruct (run_from_verdict p s) as (s' & d & R & C & L & K & X & _).
+  exists s', (fst (verdict_from p (uh s) (force s))), d, (snd (verdict_from p (uh s) (force s))).
+  repeat split; assumption.
+Qed.
+
+(* ... a KeyboardInterrupt / SystemExit of THIS run is reported and propagates, and if this run raised
+   none, run() returns - whatever an earlier run of the instance raised *)
+Theorem run_from_base p s :
+  within_Exception (rev (inserted p) ++ uh s) = true ->
+  exists s' o d prop, run_from p s = (s', prop, false)
+    /\ calls (tr s') = calls (tr s) ++ [TStart; TOut o d; TStop]
+    /\ match find (fun e => negb (derives_from_Exception e)) (raised p) with
+       | Some e => o = OErr /\ prop = Some e
+       | None => prop = None
+       end.
+Proof.
+  intros W. destruct (run_from_verdict p s) as (s' & d & R & C & _).
+  exists s', (fst (verdict_from p (uh s) (force s))), d, (snd (verdict_from p (uh s) (force s))).
+  split; [exact R|]. split; [exact C|].
+  destruct (find _ (raised p)) as [e|] eqn:F.
+  - rewrite (verdict_from_base _ _ _ _ W F). split; reflexivity.
+  - exact (verdict_from_no_base _ _ _ W F).
 Qed.
 
 (* C01_bracket, on the model's own trace: whatever the program, the calls on the result are
